@@ -508,7 +508,7 @@ func (c *Ctx) parserShiftSummary(pi *parserInfo) map[*ssa.Function]bool {
 
 func init() {
 	register("C15", &propDef{
-		explain: "Line mode is file mode with EOL instead of EOF; the necessary structural conditions are decided by partially evaluating the parser with the lookahead fixed to EOL: every EOF test is paired with an EOL test, every loop exits on EOL, and no error about the end-of-line token (peekError while peek is EOL; noPrefixParseFnError or a direct error append while the current token is EOL) is reachable before continuation is requested, in any parser function entered with next = EOL or current = next = EOL; the lexer returns the mode's end marker for unterminated strings. Tree equality between the two modes and equivalence of chunk-wise sessions are not decided. The exploration continues after a sub-parse returns (current token = its last token, next = end of line).",
+		explain: "Line mode is file mode with EOL instead of EOF; the necessary structural conditions are decided by partially evaluating the parser with the lookahead fixed to EOL: every EOF test is paired with an EOL test, every loop exits on EOL, and no error about the end-of-line token (peekError while peek is EOL; noPrefixParseFnError or a direct error append while the current token is EOL) is reachable before continuation is requested, in any parser function entered with next = EOL or current = next = EOL; the lexer returns the mode's end marker for unterminated strings. Tree equality between the two modes and equivalence of chunk-wise sessions are not decided. The exploration continues after a sub-parse returns (current token = its last token, next = end of line). Shares C13.R7: whole-script evaluation sweeps every statement for macro definitions.",
 		assume:  []string{"paths are explored inside one parser function at a time: after a call that may consume tokens the path is left to that callee's own exploration", "errors that do not concern the offending token (number conversion) are classified by the current-token state only"},
 		run:     runC15,
 	})
